@@ -538,7 +538,8 @@ fn run(a: &vhcore::Args) -> i32 {
     }
 
     let t0 = std::time::Instant::now();
-    let mut results = pool.run(&reqs);
+    let (mut results, retried) = run_with_retry(&pool, &reqs);
+    rep.set("requests_retried_after_worker_failure", retried as u64);
     let build_wall = t0.elapsed().as_secs_f64();
     match verify_self_check(&reqs, &results, &sc_idx) {
         Ok(n) => rep.set("modeF_equals_modeA_packages", n as u64),
